@@ -681,6 +681,9 @@ def run_differential(prop, tier, seed, replay=None):
     except Exception as e:                      # the extractor itself must never decide a verdict
         failed_consts, consts_changed = ["extractor crashed: " + str(e)[:100]], False
     rep.coverage["extraction_failed"] = failed_consts
+    if failed_consts:
+        # not a verdict (the behavioural correspondence remains the tie), but a blind spot of the proof side: say so
+        print(f"NOTE property={pid} extraction_failed={failed_consts} (these regenerated expressions keep their committed definitions)")
     rep.coverage["constants_changed_since_last_run"] = consts_changed
     proof = proof_status(pid, thorough=(tier == "thorough"))
     rep.coverage["phase_s"] = {"proof": round(time.time() - rep.t0, 1)}
